@@ -476,45 +476,48 @@ Proof.
 Qed.
 
 (* ------------------------------------------------------------------ find *)
-Lemma index_of_none_mem : forall s, index_of 47 s = None -> mem_byte 47 s = false.
-Proof.
-  induction s; cbn [index_of mem_byte]; intros; auto.
-  destruct (a =? 47) eqn:E; [discriminate|].
-  rewrite (N.eqb_sym 47 a), E. cbn [orb]. apply IHs. destruct (index_of 47 s); [discriminate|reflexivity].
-Qed.
-
-Lemma mem_index_of_none : forall s, mem_byte 47 s = false -> index_of 47 s = None.
+Lemma mem_index_of_none : forall d s, mem_byte d s = false -> index_of d s = None.
 Proof.
   induction s; cbn [index_of mem_byte]; intros; auto.
   apply orb_false_iff in H. destruct H as [H1 H2].
-  rewrite (N.eqb_sym a 47), H1. rewrite IHs by assumption. reflexivity.
+  rewrite (N.eqb_sym a d), H1. rewrite IHs by assumption. reflexivity.
 Qed.
 
-Lemma split_no_slash : forall s, index_of 47 s = None -> split_slash s = [s].
+Lemma split_no_delim : forall d s, index_of d s = None -> split_on d s = [s].
 Proof.
   induction s; simpl; intros; auto.
-  destruct (a =? 47) eqn:E; [discriminate|].
-  destruct (index_of 47 s) eqn:I; [discriminate|].
+  destruct (a =? d) eqn:E; [discriminate|].
+  destruct (index_of d s) eqn:I; [discriminate|].
   rewrite IHs by reflexivity. reflexivity.
 Qed.
 
-Lemma split_at_slash : forall s p, index_of 47 s = Some p ->
-  split_slash s = firstn p s :: split_slash (skipn (S p) s).
+Lemma split_at_delim : forall d s p, index_of d s = Some p ->
+  split_on d s = firstn p s :: split_on d (skipn (S p) s).
 Proof.
   induction s; simpl; intros; [discriminate|].
-  destruct (a =? 47) eqn:E.
+  destruct (a =? d) eqn:E.
   - inversion H; subst. reflexivity.
-  - destruct (index_of 47 s) eqn:I; [|discriminate].
+  - destruct (index_of d s) eqn:I; [|discriminate].
     inversion H; subst. rewrite (IHs n eq_refl). reflexivity.
 Qed.
 
-Lemma index_of_length : forall s p, index_of 47 s = Some p -> (length (skipn (S p) s) < length s)%nat.
+Lemma index_of_length : forall d s p, index_of d s = Some p -> (length (skipn (S p) s) < length s)%nat.
 Proof.
   induction s; simpl; intros; [discriminate|].
-  destruct (a =? 47).
+  destruct (a =? d).
   - inversion H; subst. simpl. lia.
-  - destruct (index_of 47 s) eqn:I; [|discriminate]. inversion H; subst.
+  - destruct (index_of d s) eqn:I; [|discriminate]. inversion H; subst.
     specialize (IHs n eq_refl). lia.
+Qed.
+
+Lemma index_of_firstn : forall d s p, index_of d s = Some p -> exists r, s = firstn p s ++ d :: r /\ skipn (S p) s = r.
+Proof.
+  induction s; simpl; intros; [discriminate|].
+  destruct (a =? d) eqn:E.
+  - inversion H; subst. apply N.eqb_eq in E. subst. exists s. split; reflexivity.
+  - destruct (index_of d s) eqn:I; [|discriminate]. inversion H; subst.
+    destruct (IHs n eq_refl) as (r & E1 & E2). exists r. split; [|exact E2].
+    cbn [firstn app]. rewrite <- E1. reflexivity.
 Qed.
 
 Lemma mapi_from_ext : forall (A B : Type) (g h : nat -> A -> B) l n,
@@ -530,78 +533,92 @@ Proof.
   rewrite andb_true_r in H. rewrite (N.eqb_sym c1 47), (N.eqb_sym c2 47), H. reflexivity.
 Qed.
 
-Lemma find_tags_ok_kids : forall t k, find_tags_ok t = true -> In k (el_kids t) -> find_tags_ok k = true.
+Lemma find_tags_ok_kids : forall d t k, find_tags_ok d t = true -> In k (el_kids t) -> find_tags_ok d k = true.
 Proof.
-  intros [tag d v att kids] k H I. simpl in *.
+  intros d [tag dc v att kids] k H I. simpl in *.
   apply andb_true_iff in H. destruct H as [_ H].
   rewrite forallb_forall in H. auto.
 Qed.
 
-Lemma find_tags_ok_tag : forall t, find_tags_ok t = true ->
-  el_tag t <> [] /\ mem_byte 47 (el_tag t) = false.
+Lemma find_tags_ok_tag : forall d t, find_tags_ok d t = true ->
+  el_tag t <> [] /\ mem_byte d (el_tag t) = false /\ starts_with [47; 47] (el_tag t) = false.
 Proof.
-  intros [tag d v att kids] H. simpl in *.
+  intros d [tag dc v att kids] H. cbn [find_tags_ok el_tag] in *.
   apply andb_true_iff in H. destruct H as [H _].
+  apply andb_true_iff in H. destruct H as [H H3].
   apply andb_true_iff in H. destruct H as [H1 H2].
-  apply negb_true_iff in H2. split; auto.
+  apply negb_true_iff in H2, H3. repeat split; auto.
   destruct tag; [discriminate|congruence].
 Qed.
 
-(* the path walk below one element (no leading "//") *)
-Lemma find_all_walk : forall root q fuel what cur a,
-  find_tags_ok cur = true -> starts_with [47; 47] what = false -> (length what < fuel)%nat ->
-  find_all fuel root cur a what q = reach (split_slash what) q cur a.
+(* a path whose first component is such a tag does not begin with the root marker *)
+Lemma tag_path_not_rooted : forall d tag s,
+  tag <> [] -> mem_byte d tag = false -> starts_with [47; 47] tag = false ->
+  (match index_of d s with Some p => firstn p s | None => s end) = tag ->
+  starts_with [47; 47] s = false.
 Proof.
-  intros root q. induction fuel as [|f IH]; intros what cur a TK NR L; [lia|].
+  intros d tag s NE ND NR H.
+  destruct (index_of d s) as [p|] eqn:I; [|subst; exact NR].
+  destruct (index_of_firstn _ _ _ I) as (r & E & _). rewrite H in E. rewrite E.
+  destruct tag as [|c1 [|c2 tag]]; [contradiction| |].
+  - cbn [app starts_with]. cbn [mem_byte] in ND. apply orb_false_iff in ND. destruct ND as [ND _].
+    destruct (47 =? c1) eqn:E1; [|reflexivity]. apply N.eqb_eq in E1. subst c1.
+    cbn [andb]. rewrite (N.eqb_sym 47 d), ND. reflexivity.
+  - change ((c1 :: c2 :: tag) ++ d :: r) with (c1 :: c2 :: (tag ++ d :: r)).
+    cbn [starts_with] in *. exact NR.
+Qed.
+
+(* the path walk below one element (no leading "//") *)
+Lemma find_all_walk : forall root d q fuel what cur a,
+  find_tags_ok d cur = true -> starts_with [47; 47] what = false -> (length what < fuel)%nat ->
+  find_all fuel root cur a what d q = reach (split_on d what) q cur a.
+Proof.
+  intros root d q. induction fuel as [|f IH]; intros what cur a TK NR L; [lia|].
   cbn [find_all]. rewrite NR.
-  destruct (find_tags_ok_tag cur TK) as [TNE TNS].
+  destruct (find_tags_ok_tag d cur TK) as (TNE & TNS & _).
   destruct (str_eqb what (el_tag cur)) eqn:E.
   - apply str_eqb_eq in E. subst what.
-    rewrite split_no_slash by (apply mem_index_of_none; exact TNS).
+    rewrite split_no_delim by (apply mem_index_of_none; exact TNS).
     cbn [reach]. rewrite str_eqb_refl. reflexivity.
-  - destruct (index_of 47 what) as [fpos|] eqn:I.
-    + rewrite (split_at_slash _ _ I).
+  - destruct (index_of d what) as [fpos|] eqn:I.
+    + rewrite (split_at_delim _ _ _ I).
       set (lwhat := skipn (S fpos) what).
       cbn [reach].
-      assert (NE : split_slash lwhat <> []).
+      assert (NE : split_on d lwhat <> []).
       { destruct lwhat as [|c r]; simpl; [discriminate|].
-        destruct (c =? 47); [discriminate|]. destruct (split_slash r); discriminate. }
+        destruct (c =? d); [discriminate|]. destruct (split_on d r); discriminate. }
       destruct (el_kids cur) as [|k0 ks] eqn:KS.
       * destruct (str_eqb (firstn fpos what) (el_tag cur)); [|reflexivity].
-        destruct (split_slash lwhat); [contradiction|reflexivity].
+        destruct (split_on d lwhat); [contradiction|reflexivity].
       * destruct (str_eqb (firstn fpos what) (el_tag cur)); [|reflexivity].
-        destruct (split_slash lwhat) as [|c0 rest] eqn:SP; [contradiction|].
+        destruct (split_on d lwhat) as [|c0 rest] eqn:SP; [contradiction|].
         rewrite <- SP. f_equal.
         apply mapi_from_ext. intros i k IN.
-        assert (TKk : find_tags_ok k = true).
-        { apply (find_tags_ok_kids cur); auto. rewrite KS. exact IN. }
-        destruct (find_tags_ok_tag k TKk) as [KNE _].
-        assert (HD : split_slash lwhat =
-                     (match index_of 47 lwhat with Some p => firstn p lwhat | None => lwhat end)
-                       :: tl (split_slash lwhat)).
-        { destruct (index_of 47 lwhat) eqn:I2.
-          - rewrite (split_at_slash _ _ I2). reflexivity.
-          - rewrite (split_no_slash _ I2). reflexivity. }
-        set (nwhat := match index_of 47 lwhat with Some p => firstn p lwhat | None => lwhat end) in *.
+        assert (TKk : find_tags_ok d k = true).
+        { apply (find_tags_ok_kids d cur); auto. rewrite KS. exact IN. }
+        destruct (find_tags_ok_tag d k TKk) as (KNE & KND & KNR).
+        assert (HD : split_on d lwhat =
+                     (match index_of d lwhat with Some p => firstn p lwhat | None => lwhat end)
+                       :: tl (split_on d lwhat)).
+        { destruct (index_of d lwhat) eqn:I2.
+          - rewrite (split_at_delim _ _ _ I2). reflexivity.
+          - rewrite (split_no_delim _ _ I2). reflexivity. }
+        set (nwhat := match index_of d lwhat with Some p => firstn p lwhat | None => lwhat end) in *.
         destruct (str_eqb (el_tag k) nwhat) eqn:EK.
         -- apply str_eqb_eq in EK.
            apply IH; auto.
-           ++ (* lwhat does not start with '/', since its first component is a non-empty tag *)
-              destruct lwhat as [|c r] eqn:LW; [reflexivity|].
-              cbn [starts_with]. destruct (47 =? c) eqn:C47; [|reflexivity].
-              exfalso. apply KNE. rewrite EK. unfold nwhat. cbn [index_of].
-              rewrite (N.eqb_sym c 47), C47. reflexivity.
-           ++ pose proof (index_of_length _ _ I). fold lwhat in H. lia.
+           ++ apply (tag_path_not_rooted d (el_tag k)); auto.
+           ++ pose proof (index_of_length _ _ _ I). fold lwhat in H. lia.
         -- rewrite HD. cbn [reach]. rewrite str_eqb_sym, EK. reflexivity.
-    + rewrite (split_no_slash _ I). cbn [reach]. rewrite E.
+    + rewrite (split_no_delim _ _ I). cbn [reach]. rewrite E.
       destruct (el_kids cur); reflexivity.
 Qed.
 
-Lemma find_all_exact : forall root q fuel what cur a,
-  find_tags_ok root = true -> find_tags_ok cur = true -> (length what < fuel)%nat ->
-  find_all fuel root cur a what q = reach_path root cur a what q.
+Lemma find_all_exact : forall root d q fuel what cur a,
+  find_tags_ok d root = true -> find_tags_ok d cur = true -> (length what < fuel)%nat ->
+  find_all fuel root cur a what d q = reach_path root cur a what d q.
 Proof.
-  intros root q. induction fuel as [|f IH]; intros what cur a TR TK L; [lia|].
+  intros root d q. induction fuel as [|f IH]; intros what cur a TR TK L; [lia|].
   destruct (starts_with [47; 47] what) eqn:SW.
   - cbn [find_all]. rewrite SW.
     destruct what as [|c1 [|c2 r]]; cbn [starts_with] in SW; try discriminate.
@@ -627,27 +644,70 @@ Lemma mapi_from_map : forall (A B C : Type) (g : nat -> A -> B) (h : B -> C) l n
   map h (mapi_from n g l) = mapi_from n (fun i k => h (g i k)) l.
 Proof. induction l; simpl; intros; auto. rewrite IHl. reflexivity. Qed.
 
-Lemma find_first_hd : forall root q fuel what cur a,
-  find_first fuel root cur a what q = hd_error (find_all fuel root cur a what q).
+(* for ALL trees, paths, delimiters and filters: find-first is the head of find-all *)
+Lemma find_first_hd : forall root d q fuel what cur a,
+  find_first fuel root cur a what d q = hd_error (find_all fuel root cur a what d q).
 Proof.
-  intros root q. induction fuel as [|f IH]; intros; [reflexivity|].
+  intros root d q. induction fuel as [|f IH]; intros; [reflexivity|].
   cbn [find_first find_all].
   destruct (starts_with [47; 47] what); [apply IH|].
   destruct (str_eqb what (el_tag cur)).
   - destruct (attr_pred q cur); reflexivity.
   - destruct (el_kids cur) eqn:KS; [reflexivity|]. rewrite <- KS.
-    destruct (index_of 47 what); [|reflexivity].
+    destruct (index_of d what); [|reflexivity].
     destruct (str_eqb _ (el_tag cur)); [|reflexivity].
     rewrite <- first_some_concat. rewrite mapi_from_map.
     f_equal. apply mapi_from_ext. intros i k _.
     destruct (str_eqb (el_tag k) _); [apply IH|reflexivity].
 Qed.
 
-Lemma c32_find_exact_lemma : forall root cur a path q,
-  find_tags_ok root = true -> find_tags_ok cur = true ->
-  find_all (find_fuel path) root cur a path q = reach_path root cur a path q /\
-  find_first (find_fuel path) root cur a path q = hd_error (reach_path root cur a path q).
+(* the filtered reach is the unfiltered reach, filtered *)
+Lemma filter_concat : forall (A : Type) (p : A -> bool) (ls : list (list A)),
+  filter p (List.concat ls) = List.concat (map (filter p) ls).
+Proof. induction ls; simpl; auto. rewrite filter_app, IHls. reflexivity. Qed.
+
+Lemma reach_filter : forall comps q t a,
+  reach comps q t a = map fst (filter (fun p => attr_ok q (snd p)) (reach_el comps t a)).
+Proof.
+  induction comps as [|c rest IH]; intros; [reflexivity|].
+  cbn [reach reach_el].
+  destruct (str_eqb c (el_tag t)); [|reflexivity].
+  destruct rest as [|c2 rest'].
+  - cbn [filter snd]. destruct (attr_ok q t); reflexivity.
+  - rewrite filter_concat, concat_map. f_equal.
+    rewrite !mapi_from_map. apply mapi_from_ext. intros i k _. apply IH.
+Qed.
+
+Lemma reach_path_filter : forall root cur a path d q,
+  reach_path root cur a path d q =
+  map fst (filter (fun p => attr_ok q (snd p)) (reach_path_el root cur a path d)).
+Proof.
+  intros. unfold reach_path, reach_path_el.
+  destruct (strip_root path) as [rooted p]. destruct rooted; apply reach_filter.
+Qed.
+
+Lemma c32_find_exact_lemma : forall root cur a path d q,
+  find_tags_ok d root = true -> find_tags_ok d cur = true ->
+  find_all (find_fuel path) root cur a path d q = reach_path root cur a path d q /\
+  find_first (find_fuel path) root cur a path d q = hd_error (reach_path root cur a path d q).
 Proof.
   intros. rewrite find_first_hd.
   rewrite find_all_exact; auto.
+Qed.
+
+Lemma c32_find_filter_lemma : forall root cur a path d q,
+  find_tags_ok d root = true -> find_tags_ok d cur = true ->
+  let matched := reach_path_el root cur a path d in
+  find_all (find_fuel path) root cur a path d (None, None) = map fst matched /\
+  find_all (find_fuel path) root cur a path d q = map fst (filter (fun p => attr_ok q (snd p)) matched) /\
+  find_first (find_fuel path) root cur a path d q =
+    hd_error (map fst (filter (fun p => attr_ok q (snd p)) matched)).
+Proof.
+  intros root cur a path d q TR TK matched. unfold matched.
+  rewrite find_first_hd.
+  rewrite !find_all_exact by auto.
+  rewrite !reach_path_filter. repeat split; auto.
+  f_equal. generalize (reach_path_el root cur a path d). clear.
+  change (fun p : addr * el => attr_ok (None, None) (snd p)) with (fun _ : addr * el => true).
+  induction l as [|x l IH]; auto. cbn [filter]. rewrite IH. reflexivity.
 Qed.
